@@ -18,7 +18,7 @@ git apply /tmp/seed_patch.diff
 echo "== our check on /repo with the patch"
 git -C /repo diff --quiet || { echo "repo dirty"; exit 2; }
 if git -C /repo apply $out/patch.diff; then
-  python3 /verif/tools/check.py $prop --time $secs > /tmp/seed_check.log 2>&1; rc=$?
+  VERIF_EVIDENCE=/verif/build/evidence_scratch python3 /verif/tools/check.py $prop --time $secs > /tmp/seed_check.log 2>&1; rc=$?
   git -C /repo checkout -- .
   echo "check exit=$rc $(grep -c '^VIOLATION' /tmp/seed_check.log) violation(s)" | tee -a $out/confirm.log
   grep -A1 '^VIOLATION' /tmp/seed_check.log | head -6 | cut -c1-250 | tee -a $out/confirm.log
